@@ -60,6 +60,11 @@ type Channel struct {
 	// txOpen is true while packets of the current message have been
 	// sent but none of them carried the end-of-message status yet.
 	txOpen bool
+	// txLock serializes the use of the transmit state (queueTx,
+	// lastPkgTx, CurrentHeaderType, curPacketNr, txOpen) by goroutines
+	// holding the read lock, e.g. a goroutine sending packages while
+	// another one closes the channel.
+	txLock sync.Mutex
 
 	// queues store unconsumed Packets
 	queueRx, queueTx *PacketQueue
@@ -147,10 +152,13 @@ func (tds *Conn) NewChannel() (*Channel, error) {
 func (tdsChan *Channel) Reset() {
 	tdsChan.RLock()
 	defer tdsChan.RUnlock()
+	tdsChan.txLock.Lock()
+	defer tdsChan.txLock.Unlock()
 	tdsChan.reset()
 }
 
-// reset is Reset for callers that already hold the read lock.
+// reset is Reset for callers that already hold the read lock and
+// txLock.
 func (tdsChan *Channel) reset() {
 	if tdsChan.closed {
 		return
@@ -192,9 +200,12 @@ func (tdsChan *Channel) Close() error {
 		// Send packet to tear down logical channel
 		teardown := NewPacket(tdsChan.tdsConn.PacketSize())
 		teardown.Data = nil
-		tdsChan.CurrentHeaderType = TDS_BUF_CLOSE
 
-		if err := tdsChan.sendPacket(teardown); err != nil {
+		tdsChan.txLock.Lock()
+		tdsChan.CurrentHeaderType = TDS_BUF_CLOSE
+		err := tdsChan.sendPacket(teardown)
+		tdsChan.txLock.Unlock()
+		if err != nil {
 			me = multierror.Append(me,
 				fmt.Errorf("error sending teardown for channel %d: %w",
 					tdsChan.channelId, err))
@@ -510,6 +521,9 @@ func (tdsChan *Channel) QueuePackage(ctx context.Context, pkg Package) error {
 		return ErrChannelClosed
 	}
 
+	tdsChan.txLock.Lock()
+	defer tdsChan.txLock.Unlock()
+
 	if acceptor, ok := pkg.(LastPkgAcceptor); ok {
 		if err := acceptor.LastPkg(tdsChan.lastPkgTx); err != nil {
 			return fmt.Errorf("error calling LastPkg on %s: %w", pkg, err)
@@ -540,6 +554,8 @@ func (tdsChan *Channel) SendRemainingPackets(ctx context.Context) error {
 	// packets to the server and preparing to receive the answer.
 	// The read lock is already held - acquiring it again would deadlock
 	// with a Close waiting for the write lock in the meantime.
+	tdsChan.txLock.Lock()
+	defer tdsChan.txLock.Unlock()
 	defer tdsChan.reset()
 	return tdsChan.sendPackets(ctx, false)
 }
